@@ -61,9 +61,9 @@ RULE = ("geom: a case is one generated geometry (shape, anisotropic pixel scales
         "bits); non-trivial = at least two pixels (geom, dim1) / the five masks are not all fully masked or all fully "
         "unmasked (ctor)")
 BOUNDS = {"quick": "2400 geometries with H,W in [1,12] (5 interior points per pixel, >= 1e-8 px from pixel boundaries), 2000 constructor "
-                   "parameter sets x 5 constructors with H,W in [1,12], 400 1-D masks of length <= 12",
+                   "parameter sets x 5 constructors with H,W in [1,12], 400 1-D masks of length <= 12, 6 frames of 2^24 .. 8.1e7 pixels (60 query points each)",
           "thorough": "12000 geometries with H,W in [1,40] (6 interior points per pixel, >= 1e-8 px from pixel boundaries), 12000 constructor "
-                      "parameter sets x 5 constructors with H,W in [1,40], 3000 1-D masks of length <= 40"}
+                      "parameter sets x 5 constructors with H,W in [1,40], 3000 1-D masks of length <= 40, 24 frames of 2^24 .. 8.1e7 pixels"}
 EXHAUSTIVE = {"quick": False, "thorough": False}
 ASSUMPTIONS = ["coordinates are compared with an absolute tolerance of 1e-9 pixel per axis (origin <= 100 pixel scales, so "
                "accumulated rounding stays < 1e-11 pixel)",
